@@ -91,7 +91,7 @@ func (i *interp) summarize(caller *frame, callpos token.Pos, fn *ssa.Function, a
 			unsupported("summary of %s exceeds %d local paths", fn.Name(), maxSubPaths)
 		}
 		lp := &pathState{eng: outer.eng, h: outer.h, prefix: prefix, sess: outer.sess, names: outer.names,
-			local: true, localCond: base, altSink: &stack, ctx: c}
+			local: true, localCond: base, altSink: &stack, ctx: c, interp: i, model: outer.model}
 		i.path = lp
 		var res value
 		var tp *targetPanic
